@@ -2,8 +2,10 @@ package rules
 
 import (
 	"fmt"
+	"go/constant"
 	"go/token"
 	"go/types"
+	"sort"
 	"strings"
 
 	"golang.org/x/tools/go/ssa"
@@ -11,13 +13,35 @@ import (
 
 // C17 extension `owner-gate` (added after an independently seeded change was
 // missed): a structural necessary condition of "a name can be released or
-// refreshed only by an address that owns it". In every method of the name
-// server that takes an owner address and does not itself insert records
-// (ReleaseName, RefreshName …), every mutation of the table — delete, map
-// update, store to a record field — must be control-dependent on a positive
-// ownership test: the true outcome of owner.Equal(x) / x.Equal(owner) /
-// bytes.Equal with the owner parameter, directly or through a boolean that is
-// true only under such an outcome.
+// refreshed only by an address that owns it". From every method of the name
+// server that takes an owner address and does not insert records
+// (ReleaseName, RefreshName …), every mutation of the table that the method
+// can reach — delete, map update, store to a record field or into the owners
+// array, clear, maps.DeleteFunc; in its own body, in its function literals and
+// in the unexported same-package helpers it calls (three levels) — must be
+// control-dependent on a positive ownership test.
+//
+// What counts as an ownership test (all decided on go/ssa, no names of locals):
+//
+//   - the true outcome of owner.Equal(x) / x.Equal(owner), or of
+//     bytes.Equal(x.To16(), owner.To16()); a raw bytes.Equal on net.IP values is
+//     NOT one (the 4-byte and the 16-byte form of one address differ);
+//   - a boolean that is true only under such an outcome: φ of flags, a && b, the
+//     result of an in-module helper or function literal (hasOwner(owners, owner),
+//     record.HasOwner(owner)) all of whose `return true` are themselves gated,
+//     slices.ContainsFunc(owners, func(ip) bool { return ip.Equal(owner) });
+//   - an index that is non-negative only under such an outcome:
+//     slices.IndexFunc(owners, pred-with-owner), an in-module indexOf helper, or
+//     an `idx := -1 … idx = i` accumulator — compared with a constant so that
+//     the taken edge excludes every "not found" value (i < 0 / i >= 0 / i == -1 …).
+//
+// "owner" is the method's net.IP parameter, followed through the heap cell the
+// SSA builder makes when a function literal captures it, conversions, To4/To16,
+// and into helpers through the argument position it is passed in.
+//
+// The gate may be established where the mutation is, or at the call site /
+// literal-creation site that leads to it (a helper that only removes, called
+// after the caller verified ownership).
 
 func init() {
 	ck := registry["C17"]
@@ -28,7 +52,7 @@ func init() {
 	ck.Run = func(c *Ctx) {
 		orig(c)
 		c17OwnerGate(c)
-		c.R.Explanation += " Extension `owner-gate`: in the methods that take an owner address and do not insert records, every mutation of the table is control-dependent on a positive comparison of a stored owner with that address (a necessary condition of release/refresh-by-owner-only; the full conflict matrix remains undecided)."
+		c.R.Explanation += " Extension `owner-gate`: from the methods that take an owner address and do not insert records, every mutation of the table reached in the method, its function literals and its same-package helpers is control-dependent on a positive comparison of a stored owner with that address — directly, through a boolean/index helper or literal that is positive only under such a comparison (hasOwner, slices.IndexFunc/ContainsFunc), or at the call site leading to the mutation (a necessary condition of release/refresh-by-owner-only; the full conflict matrix remains undecided)."
 	}
 }
 
@@ -36,76 +60,634 @@ func isIPType(t types.Type) bool {
 	return types.TypeString(t, nil) == "net.IP"
 }
 
-// ownerTrue: "v is true only if an ownership comparison with `owner` succeeded".
-func ownerTrue(v ssa.Value, owner *ssa.Parameter, seen map[ssa.Value]bool) bool {
+// c17CalleeName renders a static callee independent of generic instantiation:
+// "slices.IndexFunc", "bytes.Equal", "(net.IP).Equal".
+func c17CalleeName(f *ssa.Function) string {
+	if f == nil {
+		return ""
+	}
+	if o := f.Origin(); o != nil {
+		f = o
+	}
+	obj := f.Object()
+	if obj == nil || obj.Pkg() == nil {
+		return f.String()
+	}
+	if sig, ok := obj.Type().(*types.Signature); ok && sig.Recv() != nil {
+		return f.String()
+	}
+	return obj.Pkg().Path() + "." + obj.Name()
+}
+
+// ---------------------------------------------------------------------------
+// the owner value inside one declared function and its literals
+
+// c17Unit is a declared function together with its nested function literals.
+type c17Unit struct {
+	top    *ssa.Function
+	fns    []*ssa.Function
+	in     map[*ssa.Function]bool
+	fvBind map[*ssa.FreeVar]ssa.Value
+	stores map[ssa.Value][]*ssa.Store // cell (Alloc) → stores into it from anywhere in the unit
+}
+
+func c17TopOf(f *ssa.Function) *ssa.Function {
+	for f.Parent() != nil {
+		f = f.Parent()
+	}
+	return f
+}
+
+var c17Units = map[*ssa.Function]*c17Unit{}
+
+func c17UnitOf(f *ssa.Function) *c17Unit {
+	top := c17TopOf(f)
+	if u := c17Units[top]; u != nil {
+		return u
+	}
+	u := &c17Unit{top: top, in: map[*ssa.Function]bool{}, fvBind: map[*ssa.FreeVar]ssa.Value{}, stores: map[ssa.Value][]*ssa.Store{}}
+	u.fns = withClosures(top)
+	for _, g := range u.fns {
+		u.in[g] = true
+	}
+	for _, g := range u.fns {
+		for _, b := range g.Blocks {
+			for _, in := range b.Instrs {
+				if mc, ok := in.(*ssa.MakeClosure); ok {
+					if cf, ok := mc.Fn.(*ssa.Function); ok {
+						for i, fv := range cf.FreeVars {
+							if i < len(mc.Bindings) {
+								u.fvBind[fv] = mc.Bindings[i]
+							}
+						}
+					}
+				}
+			}
+		}
+	}
+	for _, g := range u.fns {
+		for _, b := range g.Blocks {
+			for _, in := range b.Instrs {
+				if st, ok := in.(*ssa.Store); ok {
+					base := u.resolve(st.Addr)
+					if _, isAlloc := base.(*ssa.Alloc); isAlloc {
+						u.stores[base] = append(u.stores[base], st)
+					}
+				}
+			}
+		}
+	}
+	c17Units[top] = u
+	return u
+}
+
+func (u *c17Unit) resolve(v ssa.Value) ssa.Value {
+	for i := 0; i < 8; i++ {
+		fv, ok := v.(*ssa.FreeVar)
+		if !ok {
+			return v
+		}
+		b, ok := u.fvBind[fv]
+		if !ok {
+			return v
+		}
+		v = b
+	}
+	return v
+}
+
+// c17Own: which SSA values of a unit denote the owner address.
+type c17Own struct {
+	u     *c17Unit
+	vals  map[ssa.Value]bool // values that are the owner address (parameter, by-value captures)
+	cells map[ssa.Value]bool // heap cells (captured variables) that only ever hold the owner address
+}
+
+// c17NewOwn seeds the owner set with parameters of the unit's top function (or
+// of one of its literals) and closes it over captured-variable cells.
+func c17NewOwn(f *ssa.Function, seeds []ssa.Value) *c17Own {
+	o := &c17Own{u: c17UnitOf(f), vals: map[ssa.Value]bool{}, cells: map[ssa.Value]bool{}}
+	for _, s := range seeds {
+		o.vals[s] = true
+	}
+	for changed := true; changed; {
+		changed = false
+		for cell, sts := range o.u.stores {
+			if o.cells[cell] || len(sts) == 0 || !isIPType(derefType(cell.Type())) {
+				continue
+			}
+			all := true
+			for _, st := range sts {
+				if !o.derives(st.Val, 0) {
+					all = false
+				}
+			}
+			if all {
+				o.cells[cell] = true
+				changed = true
+			}
+		}
+	}
+	return o
+}
+
+func (o *c17Own) derives(v ssa.Value, d int) bool {
+	if d > 6 {
+		return false
+	}
+	v = o.u.resolve(v)
+	if o.vals[v] {
+		return true
+	}
+	switch x := v.(type) {
+	case *ssa.UnOp:
+		if x.Op == token.MUL {
+			return o.cells[o.u.resolve(x.X)]
+		}
+	case *ssa.ChangeType:
+		return o.derives(x.X, d+1)
+	case *ssa.Convert:
+		return o.derives(x.X, d+1)
+	case *ssa.Slice:
+		return o.derives(x.X, d+1)
+	case *ssa.Call:
+		// owner.To4(), owner.To16()
+		if n := c17CalleeName(x.Common().StaticCallee()); n == "(net.IP).To4" || n == "(net.IP).To16" {
+			return o.derives(x.Common().Args[0], d+1)
+		}
+	case *ssa.Phi:
+		// if v4 := owner.To4(); v4 != nil { owner = v4 }
+		if d > 2 {
+			return false
+		}
+		for _, e := range x.Edges {
+			if e == ssa.Value(x) {
+				continue
+			}
+			if !o.derives(e, d+1) {
+				return false
+			}
+		}
+		return len(x.Edges) > 0
+	}
+	return false
+}
+
+// forCallee maps the owner into a declared in-module callee through the
+// argument positions it is passed in; nil when the callee does not receive it.
+func (o *c17Own) forCallee(c *ssa.CallCommon, callee *ssa.Function) *c17Own {
+	if o.u.in[callee] {
+		return o // a literal of this unit: same captured variables
+	}
+	var seeds []ssa.Value
+	for k, a := range c.Args {
+		if k < len(callee.Params) && isIPType(a.Type()) && o.derives(a, 0) {
+			seeds = append(seeds, callee.Params[k])
+		}
+	}
+	if len(seeds) == 0 {
+		return nil
+	}
+	return c17NewOwn(callee, seeds)
+}
+
+// ---------------------------------------------------------------------------
+// positive ownership tests
+
+type c17OwnerTest struct {
+	p interface{ InModule(*ssa.Function) bool }
+}
+
+const c17HelperDepth = 3
+
+func c17BoolConst(v ssa.Value) (val, ok bool) {
+	k, isK := v.(*ssa.Const)
+	if !isK || k.Value == nil || k.Value.Kind() != constant.Bool {
+		return false, false
+	}
+	return constant.BoolVal(k.Value), true
+}
+
+func c17IntConst(v ssa.Value) (int64, bool) {
+	k, isK := v.(*ssa.Const)
+	if !isK || k.Value == nil {
+		return 0, false
+	}
+	iv := constant.ToInt(k.Value)
+	if iv.Kind() != constant.Int {
+		return 0, false
+	}
+	n, exact := constant.Int64Val(iv)
+	return n, exact
+}
+
+// callTarget resolves the callee of a call and the result index a value selects.
+func c17CallOf(v ssa.Value) (*ssa.Call, int) {
+	switch x := v.(type) {
+	case *ssa.Call:
+		return x, 0
+	case *ssa.Extract:
+		if c, ok := x.Tuple.(*ssa.Call); ok {
+			return c, x.Index
+		}
+	}
+	return nil, 0
+}
+
+func (t *c17OwnerTest) declared(f *ssa.Function) bool {
+	return f != nil && f.Blocks != nil && t.p.InModule(f)
+}
+
+// predOwnerTrue: the predicate passed as argument v (to slices.IndexFunc /
+// ContainsFunc) is true only under a positive ownership test: a function
+// literal of this unit, or the bound method value owner.Equal.
+func (t *c17OwnerTest) predOwnerTrue(v ssa.Value, o *c17Own, depth int) bool {
+	mc, ok := o.u.resolve(v).(*ssa.MakeClosure)
+	if !ok {
+		return false
+	}
+	pf, ok := mc.Fn.(*ssa.Function)
+	if !ok {
+		return false
+	}
+	if pf.Synthetic != "" {
+		// owner.Equal as a method value: a bound-method wrapper of (net.IP).Equal closed over the owner
+		if strings.HasPrefix(pf.Synthetic, "bound method wrapper") && strings.HasPrefix(pf.String(), "(net.IP).Equal") && len(mc.Bindings) == 1 {
+			return o.derives(mc.Bindings[0], 0)
+		}
+		return false
+	}
+	if !o.u.in[pf] || pf.Blocks == nil || depth >= c17HelperDepth {
+		return false
+	}
+	return t.returnsOwnerTrue(pf, 0, o, depth+1)
+}
+
+// ownerTrue: "v is true only if an ownership comparison with the owner succeeded".
+func (t *c17OwnerTest) ownerTrue(v ssa.Value, o *c17Own, seen map[ssa.Value]bool, depth int) bool {
+	if o == nil {
+		return false
+	}
 	if seen[v] {
 		return true // optimistic on cycles of φ: a loop-carried flag
 	}
 	seen[v] = true
 	switch x := v.(type) {
-	case *ssa.Call:
-		f := x.Common().StaticCallee()
-		if f == nil {
-			return false
-		}
-		n := f.String()
-		if n == "(net.IP).Equal" || n == "bytes.Equal" {
-			for _, a := range x.Common().Args {
-				if derivesFromParam(a, owner, 0) {
-					return true
-				}
-			}
-		}
 	case *ssa.Phi:
 		for i, e := range x.Edges {
-			if k, ok := e.(*ssa.Const); ok && k.Value != nil {
-				if k.Value.ExactString() == "false" {
-					continue
-				}
-				// constant true: the incoming edge must itself be owner-gated
-				if blockOwnerGated(x.Block().Preds[i], owner) {
-					continue
-				}
+			if val, isK := c17BoolConst(e); isK && !val {
+				continue
+			}
+			// a value arriving over an owner-gated edge may be anything
+			if t.blockGated(x.Block().Preds[i], o, depth) {
+				continue
+			}
+			if _, isK := c17BoolConst(e); isK {
 				return false
 			}
-			if !ownerTrue(e, owner, seen) {
+			if !t.ownerTrue(e, o, seen, depth) {
 				return false
 			}
 		}
 		return true
 	case *ssa.BinOp:
-		if x.Op == token.LAND {
-			return ownerTrue(x.X, owner, seen) || ownerTrue(x.Y, owner, seen)
+		if x.Op == token.LAND || x.Op == token.AND {
+			return t.ownerTrue(x.X, o, seen, depth) || t.ownerTrue(x.Y, o, seen, depth)
 		}
-	}
-	return false
-}
-
-func derivesFromParam(v ssa.Value, prm *ssa.Parameter, d int) bool {
-	if d > 4 {
 		return false
 	}
-	if v == ssa.Value(prm) {
-		return true
+	call, idx := c17CallOf(v)
+	if call == nil {
+		return false
 	}
-	switch x := v.(type) {
-	case *ssa.ChangeType:
-		return derivesFromParam(x.X, prm, d+1)
-	case *ssa.Convert:
-		return derivesFromParam(x.X, prm, d+1)
-	case *ssa.Slice:
-		return derivesFromParam(x.X, prm, d+1)
-	case *ssa.Call:
-		// owner.To4(), owner.To16()
-		if f := x.Common().StaticCallee(); f != nil && strings.HasPrefix(f.String(), "(net.IP).To") {
-			return derivesFromParam(x.Common().Args[0], prm, d+1)
+	cc := call.Common()
+	f := cc.StaticCallee()
+	if f == nil {
+		return false
+	}
+	switch c17CalleeName(f) {
+	case "(net.IP).Equal":
+		for _, a := range cc.Args {
+			if o.derives(a, 0) {
+				return true
+			}
 		}
+		return false
+	case "bytes.Equal":
+		// only on the canonical 16-byte forms of both addresses
+		if len(cc.Args) != 2 {
+			return false
+		}
+		own := false
+		for _, a := range cc.Args {
+			for {
+				if ct, isCT := a.(*ssa.ChangeType); isCT {
+					a = ct.X
+				} else if cv, isCV := a.(*ssa.Convert); isCV {
+					a = cv.X
+				} else {
+					break
+				}
+			}
+			ac, ok := a.(*ssa.Call)
+			if !ok || c17CalleeName(ac.Common().StaticCallee()) != "(net.IP).To16" {
+				return false
+			}
+			if o.derives(ac.Common().Args[0], 0) {
+				own = true
+			}
+		}
+		return own
+	case "slices.ContainsFunc":
+		return len(cc.Args) == 2 && t.predOwnerTrue(cc.Args[1], o, depth)
+	}
+	if t.declared(f) && depth < c17HelperDepth {
+		return t.returnsOwnerTrue(f, idx, o.forCallee(cc, f), depth+1)
 	}
 	return false
 }
 
-// blockOwnerGated: some dominating branch edge into b establishes ownership.
-func blockOwnerGated(b *ssa.BasicBlock, owner *ssa.Parameter) bool {
+// returnsOwnerTrue: result #idx of g is true only under a positive ownership test.
+func (t *c17OwnerTest) returnsOwnerTrue(g *ssa.Function, idx int, o *c17Own, depth int) bool {
+	if o == nil {
+		return false
+	}
+	n := 0
+	for _, b := range g.Blocks {
+		ret, ok := b.Instrs[len(b.Instrs)-1].(*ssa.Return)
+		if !ok {
+			continue
+		}
+		if idx >= len(ret.Results) {
+			return false
+		}
+		n++
+		r := ret.Results[idx]
+		if val, isK := c17BoolConst(r); isK && !val {
+			continue
+		}
+		if t.blockGated(b, o, depth) {
+			continue
+		}
+		if _, isK := c17BoolConst(r); isK {
+			return false
+		}
+		if !t.ownerTrue(r, o, map[ssa.Value]bool{}, depth) {
+			return false
+		}
+	}
+	return n > 0
+}
+
+// ownerIndex: "v is non-negative only if an ownership comparison succeeded";
+// negs are the values it takes otherwise.
+func (t *c17OwnerTest) ownerIndex(v ssa.Value, o *c17Own, seen map[ssa.Value]bool, depth int) (negs map[int64]bool, ok bool) {
+	if o == nil || seen[v] {
+		return nil, seen[v]
+	}
+	seen[v] = true
+	negs = map[int64]bool{}
+	if b, isB := v.Type().Underlying().(*types.Basic); !isB || b.Info()&types.IsInteger == 0 {
+		return nil, false
+	}
+	if phi, isPhi := v.(*ssa.Phi); isPhi {
+		for i, e := range phi.Edges {
+			if n, isK := c17IntConst(e); isK && n < 0 {
+				negs[n] = true
+				continue
+			}
+			if t.blockGated(phi.Block().Preds[i], o, depth) {
+				continue
+			}
+			if _, isK := c17IntConst(e); isK {
+				return nil, false
+			}
+			sub, ok := t.ownerIndex(e, o, seen, depth)
+			if !ok {
+				return nil, false
+			}
+			for n := range sub {
+				negs[n] = true
+			}
+		}
+		return negs, true
+	}
+	call, idx := c17CallOf(v)
+	if call == nil {
+		return nil, false
+	}
+	cc := call.Common()
+	f := cc.StaticCallee()
+	if f == nil || depth >= c17HelperDepth {
+		return nil, false
+	}
+	if c17CalleeName(f) == "slices.IndexFunc" {
+		if len(cc.Args) == 2 && idx == 0 && t.predOwnerTrue(cc.Args[1], o, depth) {
+			return map[int64]bool{-1: true}, true
+		}
+		return nil, false
+	}
+	if !t.declared(f) {
+		return nil, false
+	}
+	co := o.forCallee(cc, f)
+	if co == nil {
+		return nil, false
+	}
+	nret := 0
+	for _, b := range f.Blocks {
+		ret, isRet := b.Instrs[len(b.Instrs)-1].(*ssa.Return)
+		if !isRet {
+			continue
+		}
+		if idx >= len(ret.Results) {
+			return nil, false
+		}
+		nret++
+		r := ret.Results[idx]
+		if n, isK := c17IntConst(r); isK && n < 0 {
+			negs[n] = true
+			continue
+		}
+		if t.blockGated(b, co, depth+1) {
+			continue
+		}
+		if _, isK := c17IntConst(r); isK {
+			return nil, false
+		}
+		sub, ok := t.ownerIndex(r, co, map[ssa.Value]bool{}, depth+1)
+		if !ok {
+			return nil, false
+		}
+		for n := range sub {
+			negs[n] = true
+		}
+	}
+	return negs, nret > 0
+}
+
+// c17NormCond strips !x, x == false, x != true … ; neg reports an odd number of negations.
+func c17NormCond(cond ssa.Value) (ssa.Value, bool) {
+	neg := false
+	for {
+		if u, isNot := cond.(*ssa.UnOp); isNot && u.Op == token.NOT {
+			neg = !neg
+			cond = u.X
+			continue
+		}
+		if bo, isB := cond.(*ssa.BinOp); isB && (bo.Op == token.EQL || bo.Op == token.NEQ) {
+			other, k := bo.X, bo.Y
+			if _, isK := c17BoolConst(k); !isK {
+				other, k = bo.Y, bo.X
+			}
+			if kv, isK := c17BoolConst(k); isK {
+				if !kv == (bo.Op == token.EQL) {
+					neg = !neg
+				}
+				cond = other
+				continue
+			}
+		}
+		return cond, neg
+	}
+}
+
+func c17CmpHolds(op token.Token, a, b int64) bool {
+	switch op {
+	case token.EQL:
+		return a == b
+	case token.NEQ:
+		return a != b
+	case token.LSS:
+		return a < b
+	case token.LEQ:
+		return a <= b
+	case token.GTR:
+		return a > b
+	case token.GEQ:
+		return a >= b
+	}
+	return false
+}
+
+var c17Mirror = map[token.Token]token.Token{token.EQL: token.EQL, token.NEQ: token.NEQ, token.LSS: token.GTR, token.LEQ: token.GEQ, token.GTR: token.LSS, token.GEQ: token.LEQ}
+
+// edgeEstablishes: taking the onTrue/false edge of `cond` proves ownership.
+func (t *c17OwnerTest) edgeEstablishes(cond ssa.Value, onTrue bool, o *c17Own, depth int) bool {
+	cond, neg := c17NormCond(cond)
+	positive := onTrue != neg
+	if positive && t.ownerTrue(cond, o, map[ssa.Value]bool{}, depth) {
+		return true
+	}
+	bo, ok := cond.(*ssa.BinOp)
+	if !ok {
+		return false
+	}
+	if _, isCmp := c17Mirror[bo.Op]; !isCmp {
+		return false
+	}
+	if t.lenChangedByOwnerFilter(bo, positive, o) {
+		return true
+	}
+	x, kv := bo.X, bo.Y
+	op := bo.Op
+	if _, isK := c17IntConst(kv); !isK {
+		x, kv = bo.Y, bo.X
+		op = c17Mirror[bo.Op]
+	}
+	k, isK := c17IntConst(kv)
+	if !isK {
+		return false
+	}
+	negs, ok := t.ownerIndex(x, o, map[ssa.Value]bool{}, depth)
+	if !ok {
+		return false
+	}
+	// the edge is taken when (x op k) == positive; it must exclude every not-found value
+	for n := range negs {
+		if c17CmpHolds(op, n, k) == positive {
+			return false
+		}
+	}
+	return true
+}
+
+// lenChangedByOwnerFilter: the comparison relates len(record.Owners) before and after the one
+// store `record.Owners = slices.DeleteFunc(record.Owners, owner-predicate)`, and the edge taken
+// says the two differ: an entry equal to the requester was removed, so the requester was an owner.
+func (t *c17OwnerTest) lenChangedByOwnerFilter(bo *ssa.BinOp, positive bool, o *c17Own) bool {
+	differ := false
+	switch bo.Op {
+	case token.NEQ, token.LSS, token.GTR:
+		differ = positive
+	case token.EQL, token.GEQ, token.LEQ:
+		differ = !positive
+	}
+	if !differ {
+		return false
+	}
+	lenOf := func(v ssa.Value) (*ssa.UnOp, *ssa.FieldAddr) {
+		call, ok := v.(*ssa.Call)
+		if !ok {
+			return nil, nil
+		}
+		if bi, isB := call.Call.Value.(*ssa.Builtin); !isB || bi.Name() != "len" || len(call.Call.Args) != 1 {
+			return nil, nil
+		}
+		ld, ok := call.Call.Args[0].(*ssa.UnOp)
+		if !ok || ld.Op != token.MUL {
+			return nil, nil
+		}
+		fa, ok := ld.X.(*ssa.FieldAddr)
+		if !ok {
+			return nil, nil
+		}
+		if name, isRec := c17RecordField(fa); !isRec || name != "Owners" {
+			return nil, nil
+		}
+		return ld, fa
+	}
+	l1, f1 := lenOf(bo.X)
+	l2, f2 := lenOf(bo.Y)
+	if l1 == nil || l2 == nil || f1.X != f2.X {
+		return false
+	}
+	// exactly one store to that field in the function, an owner filter, between the two loads
+	var stores []*ssa.Store
+	for _, b := range bo.Parent().Blocks {
+		for _, in := range b.Instrs {
+			if st, ok := in.(*ssa.Store); ok {
+				if fa, ok := st.Addr.(*ssa.FieldAddr); ok && fa.X == f1.X && fa.Field == f1.Field {
+					stores = append(stores, st)
+				}
+			}
+		}
+	}
+	if len(stores) != 1 || !t.storeIsOwnerFilter(stores[0], o) {
+		return false
+	}
+	st := stores[0]
+	before := func(a, b ssa.Instruction) bool {
+		if a.Block() == b.Block() {
+			for _, in := range a.Block().Instrs {
+				if in == a {
+					return true
+				}
+				if in == b {
+					return false
+				}
+			}
+		}
+		return a.Block().Dominates(b.Block())
+	}
+	return (before(l1, st) && before(st, l2)) || (before(l2, st) && before(st, l1))
+}
+
+// blockGated: some dominating branch edge into b establishes ownership.
+func (t *c17OwnerTest) blockGated(b *ssa.BasicBlock, o *c17Own, depth int) bool {
+	if o == nil {
+		return false
+	}
 	for x := b; x != nil; x = x.Idom() {
 		d := x.Idom()
 		if d == nil {
@@ -118,110 +700,235 @@ func blockOwnerGated(b *ssa.BasicBlock, owner *ssa.Parameter) bool {
 		if !ok {
 			continue
 		}
-		onTrue := d.Succs[0] == x
-		cond := iff.Cond
-		neg := false
-		for {
-			if u, isNot := cond.(*ssa.UnOp); isNot && u.Op == token.NOT {
-				neg = !neg
-				cond = u.X
-				continue
-			}
-			// x == false / x != true / x == true / x != false
-			if bo, isB := cond.(*ssa.BinOp); isB && (bo.Op == token.EQL || bo.Op == token.NEQ) {
-				other, k := bo.X, bo.Y
-				if _, isK := k.(*ssa.Const); !isK {
-					other, k = bo.Y, bo.X
-				}
-				if kc, isK := k.(*ssa.Const); isK && kc.Value != nil && (kc.Value.ExactString() == "true" || kc.Value.ExactString() == "false") {
-					if (kc.Value.ExactString() == "false") == (bo.Op == token.EQL) {
-						neg = !neg
-					}
-					cond = other
-					continue
-				}
-			}
-			break
+		if d.Succs[0] == d.Succs[1] {
+			continue
 		}
-		if onTrue != neg && ownerTrue(cond, owner, map[ssa.Value]bool{}) {
+		if t.edgeEstablishes(iff.Cond, d.Succs[0] == x, o, depth) {
 			return true
 		}
 	}
 	return false
 }
 
+// storeIsOwnerFilter: `record.Owners = slices.DeleteFunc(record.Owners, pred)` with a
+// predicate that is true only for the owner: whatever the store changes, it only removes
+// entries equal to the requester (and changes nothing when it is not a member).
+func (t *c17OwnerTest) storeIsOwnerFilter(in ssa.Instruction, o *c17Own) bool {
+	st, ok := in.(*ssa.Store)
+	if !ok || o == nil {
+		return false
+	}
+	fa, ok := st.Addr.(*ssa.FieldAddr)
+	if !ok {
+		return false
+	}
+	call, ok := st.Val.(*ssa.Call)
+	if !ok || c17CalleeName(call.Call.StaticCallee()) != "slices.DeleteFunc" || len(call.Call.Args) != 2 {
+		return false
+	}
+	ld, ok := call.Call.Args[0].(*ssa.UnOp)
+	if !ok || ld.Op != token.MUL {
+		return false
+	}
+	fa2, ok := ld.X.(*ssa.FieldAddr)
+	if !ok || fa2.X != fa.X || fa2.Field != fa.Field {
+		return false
+	}
+	return t.predOwnerTrue(call.Call.Args[1], o, 0)
+}
+
+// ---------------------------------------------------------------------------
+// mutations of the table reached from an entry method
+
+// c17Frame: one step of the way to a mutation — the block of the mutation itself,
+// or of the call / literal creation that leads to it, with that function's context.
+type c17Frame struct {
+	fn  *ssa.Function
+	b   *ssa.BasicBlock
+	ctx any
+}
+
+type c17Reached struct {
+	in     ssa.Instruction
+	what   string
+	via    string // helper chain, "" when in the entry's own body
+	frames []c17Frame
+}
+
+type c17Walker struct {
+	inModule  func(*ssa.Function) bool
+	pkg       *ssa.Package
+	calleeCtx func(cc *ssa.CallCommon, callee *ssa.Function, ctx any) any
+	reached   map[*ssa.Function]bool
+	muts      []c17Reached
+	inserts   bool
+	stack     map[*ssa.Function]bool
+}
+
+const c17WalkDepth = 3
+
+func (w *c17Walker) walk(f *ssa.Function, ctx any, frames []c17Frame, via []string, depth int) {
+	if f == nil || f.Blocks == nil || w.stack[f] {
+		return
+	}
+	w.stack[f] = true
+	defer delete(w.stack, f)
+	w.reached[f] = true
+	for _, b := range f.Blocks {
+		here := append(append([]c17Frame{}, frames...), c17Frame{f, b, ctx})
+		for _, in := range b.Instrs {
+			if what, ok := c17IsMutation(in); ok {
+				if _, isUpd := in.(*ssa.MapUpdate); isUpd {
+					w.inserts = true
+				}
+				w.muts = append(w.muts, c17Reached{in: in, what: what, via: strings.Join(via, " → "), frames: here})
+			}
+			switch x := in.(type) {
+			case *ssa.MakeClosure:
+				if cf, ok := x.Fn.(*ssa.Function); ok {
+					w.walk(cf, ctx, here, via, depth)
+				}
+			case ssa.CallInstruction:
+				cc := x.Common()
+				g := cc.StaticCallee()
+				if g == nil || g.Blocks == nil || !w.inModule(g) || g.Parent() != nil {
+					continue // literals are walked where they are created
+				}
+				if g.Pkg != w.pkg || depth >= c17WalkDepth {
+					continue
+				}
+				w.walk(g, w.calleeCtx(cc, g, ctx), here, append(append([]string{}, via...), g.Name()), depth+1)
+			}
+		}
+	}
+}
+
+func c17NewWalker(p interface{ InModule(*ssa.Function) bool }, pkg *ssa.Package, calleeCtx func(*ssa.CallCommon, *ssa.Function, any) any) *c17Walker {
+	return &c17Walker{inModule: p.InModule, pkg: pkg, calleeCtx: calleeCtx, reached: map[*ssa.Function]bool{}, stack: map[*ssa.Function]bool{}}
+}
+
 func c17OwnerGate(c *Ctx) {
 	p, r := c.P, c.R
+	const rule = "owner-gate"
 	const rel = "network/netbios/nbtns"
 	pk := p.Pkg(rel)
 	if pk == nil {
-		r.Undecided("owner-gate", "package", "", rel+" not found")
+		r.Undecided(rule, "package", "", rel+" not found")
 		return
 	}
 	tn, _ := pk.Types.Scope().Lookup("NetBIOSNameServer").(*types.TypeName)
 	if tn == nil {
-		r.Undecided("owner-gate", "NetBIOSNameServer", "", "type not found")
+		r.Undecided(rule, "NetBIOSNameServer", "", "type not found")
 		return
 	}
-	ms := types.NewMethodSet(types.NewPointer(tn.Type()))
-	nMethods := 0
-	for i := 0; i < ms.Len(); i++ {
-		fn := p.Func(rel, "NetBIOSNameServer", ms.At(i).Obj().Name())
-		if fn == nil || fn.Blocks == nil {
-			continue
-		}
-		var owner *ssa.Parameter
+	test := &c17OwnerTest{p: p}
+	ownerParams := func(fn *ssa.Function) []ssa.Value {
+		var out []ssa.Value
 		for _, prm := range fn.Params[1:] {
 			if isIPType(prm.Type()) {
-				owner = prm
+				out = append(out, prm)
 			}
 		}
-		if owner == nil {
+		return out
+	}
+	calleeCtx := func(cc *ssa.CallCommon, callee *ssa.Function, ctx any) any {
+		o, _ := ctx.(*c17Own)
+		if o == nil {
+			return (*c17Own)(nil)
+		}
+		return o.forCallee(cc, callee)
+	}
+	// entries: the exported owner-taking methods first, then every other owner-taking
+	// method that no analysed entry reaches (so that no method escapes the rule)
+	ms := types.NewMethodSet(types.NewPointer(tn.Type()))
+	var exported, others []*ssa.Function
+	for i := 0; i < ms.Len(); i++ {
+		fn := p.Func(rel, "NetBIOSNameServer", ms.At(i).Obj().Name())
+		if fn == nil || fn.Blocks == nil || len(ownerParams(fn)) == 0 {
 			continue
 		}
-		// methods that insert records are registration, governed by the conflict matrix (not decided)
-		inserts := false
-		type mut struct {
-			in   ssa.Instruction
-			what string
+		if ms.At(i).Obj().Exported() {
+			exported = append(exported, fn)
+		} else {
+			others = append(others, fn)
 		}
-		var muts []mut
-		for _, b := range fn.Blocks {
-			for _, in := range b.Instrs {
-				switch x := in.(type) {
-				case *ssa.MapUpdate:
-					inserts = true
-					muts = append(muts, mut{x, "map update"})
-				case *ssa.Store:
-					if fa, ok := x.Addr.(*ssa.FieldAddr); ok {
-						if nt, ok := derefType(fa.X.Type()).(*types.Named); ok && nt.Obj().Name() == "NameRecord" {
-							st := nt.Underlying().(*types.Struct)
-							muts = append(muts, mut{x, "store NameRecord." + st.Field(fa.Field).Name()})
-						}
-					}
-				case *ssa.Call:
-					if bi, ok := x.Call.Value.(*ssa.Builtin); ok && bi.Name() == "delete" {
-						muts = append(muts, mut{x, "delete(names, …)"})
-					}
-				}
-			}
+	}
+	reachedAll := map[*ssa.Function]bool{}
+	nMethods := 0
+	analysed := map[string]int{}
+	judge := func(fn *ssa.Function) {
+		w := c17NewWalker(p, fn.Pkg, calleeCtx)
+		own := c17NewOwn(fn, ownerParams(fn))
+		w.walk(fn, own, nil, nil, 0)
+		for g := range w.reached {
+			reachedAll[g] = true
 		}
-		if inserts {
-			continue
+		if w.inserts {
+			// methods that insert records are registration, governed by the conflict matrix
+			return
 		}
 		nMethods++
 		fname := p.FuncName(fn)
 		ord := map[string]int{}
-		for _, m := range muts {
-			ord[m.what]++
-			key := fmt.Sprintf("%s: %s #%d", fname, m.what, ord[m.what])
-			if blockOwnerGated(m.in.Block(), owner) {
-				r.OK("owner-gate", key, p.Rel(m.in.Pos()), "dominated by the positive outcome of an ownership comparison with "+owner.Name())
+		sort.SliceStable(w.muts, func(i, j int) bool { return w.muts[i].in.Pos() < w.muts[j].in.Pos() })
+		for _, m := range w.muts {
+			what := m.what
+			if m.via != "" {
+				what = "via " + m.via + ": " + what
+			}
+			ord[what]++
+			key := fmt.Sprintf("%s: %s #%d", fname, what, ord[what])
+			analysed[fn.Name()]++
+			where := ""
+			for _, fr := range m.frames {
+				o, _ := fr.ctx.(*c17Own)
+				if test.blockGated(fr.b, o, 0) {
+					where = p.FuncName(fr.fn)
+					break
+				}
+			}
+			if where == "" && len(m.frames) > 0 {
+				if o, _ := m.frames[len(m.frames)-1].ctx.(*c17Own); test.storeIsOwnerFilter(m.in, o) {
+					r.OK(rule, key, p.Rel(m.in.Pos()), "the store is slices.DeleteFunc of the same field with a predicate that holds only for "+ownerParams(fn)[0].Name()+": it can only remove the requester's own entry")
+					continue
+				}
+			}
+			oname := fn.Params[1].Name()
+			if ops := ownerParams(fn); len(ops) > 0 {
+				oname = ops[0].Name()
+			}
+			if where != "" {
+				r.OK(rule, key, p.Rel(m.in.Pos()), "dominated by the positive outcome of an ownership comparison with "+oname+" (established in "+where+")")
 			} else {
-				r.Fail("owner-gate", key, p.Rel(m.in.Pos()), "the table is modified on a path that never compared a stored owner with "+owner.Name()+": an address that does not own the name can change or remove it")
+				r.Fail(rule, key, p.Rel(m.in.Pos()), "the table is modified on a path that never compared a stored owner with "+oname+": an address that does not own the name can change or remove it")
+			}
+		}
+		if len(w.muts) == 0 {
+			// the release / refresh operations must still be recognised as modifying the table
+			if fn.Name() == "ReleaseName" || fn.Name() == "RefreshName" {
+				r.Undecided(rule, fname+": mutations of the table", p.Rel(fn.Pos()), "no modification of the table was recognised in or under this method: the rule no longer matches its shape")
 			}
 		}
 	}
-	r.Floor("owner-gate", 4)
+	for _, fn := range exported {
+		judge(fn)
+	}
+	for _, fn := range others {
+		if !reachedAll[fn] {
+			judge(fn)
+		}
+	}
+	// the two operations the property names must be among the judged methods
+	for _, name := range []string{"ReleaseName", "RefreshName"} {
+		if analysed[name] == 0 {
+			if fn := p.Func(rel, "NetBIOSNameServer", name); fn != nil {
+				r.Undecided(rule, p.FuncName(fn)+": judged as an owner-restricted operation", p.Rel(fn.Pos()), "the method takes no owner address, inserts records, or reaches no recognised modification: release/refresh-by-owner-only is not decided for it")
+			}
+		}
+	}
+	// one instance per owner-restricted operation at least (ReleaseName, RefreshName); the
+	// number of mutation statements is an artefact of how the method is written
+	r.Floor(rule, 2)
 	r.Extra["owner_gated_methods"] = nMethods
+	r.Extra["owner_gated_mutations_per_method"] = analysed
 }
